@@ -42,6 +42,12 @@ CHECKS = {
  "C16": dict(tech="may-typestate of the attribute-building actions over all automaton paths; lookup/edit discipline and getter routing over MIR; lint for byte-wise case folding of encoded names",
       text="Decides: attributes are opened, named, valued and closed in protocol order on every path and a tag is emitted only with no attribute open; lookups lower-case the query, return the first match, see edits, removal removes all duplicates; getters route to the right decoder; the reported namespace is the one the tag was processed in. Byte-wise folding of multi-byte encoded names is a known finding. Exact closing-quote arithmetic is not decided.",
       ref="DESIGN.md §3 C16"),
+ "C10": dict(tech="charge-dominates-grow dominance rules with operand identity over MIR; error-discipline rule over every Result carrying MemoryLimitExceededError; type-driven inventory of growable containers",
+      text="Decides the accounting clauses: both limited containers charge the limiter (with the same operands) before every reservation and grow only under a reservation or a sufficient-capacity branch; no memory-limit error is dropped or re-labelled; the limiter compares after adding; one limiter is shared by the VM stack and the parsing buffer; every growable container field is classified (charged / configuration-bounded / token-bounded / finding). Containers that grow with the document without being charged are recorded as known findings. Monotonicity in M is a relation between runs and is not decided.",
+      ref="DESIGN.md §3 C10"),
+ "C18": dict(tech="absence-of-shared-state scans (statics with Freeze/thread_local/mut classification from rustc, unsafe Send/Sync impls, lazy globals, hash iteration) over both crates; compile_fail Send witnesses with compiling twins",
+      text="Decides determinism/isolation through its cause: no static of either crate is mutable or interior-mutable, the only thread-local is the C API's LAST_ERROR accessed through try_with by two functions, sharing objects are created per rewriter, hash iteration is order-insensitive, and Send-ness is proved by the compiler on witnesses. Equality of concurrent and sequential runs as such is not decided.",
+      ref="DESIGN.md §3 C18"),
 }
 
 PENDING_REASON = "check for this property is not built yet in this revision (work in progress; see DESIGN.md §3 for the planned static rules)"
